@@ -95,7 +95,12 @@ def _compat_opts(rng, a_self):
 
 def _build_pair(rng, ns, no, mode, cell):
     from mofun import Atoms
-    a = atomsgen.gen_atoms(rng, ns, tag="S", id_base=1000.0, cell=cell, max_terms=3)
+    # one pair in four: both structures carry the SAME two or three extra labels for some kinds, listed in another order
+    # (columns are merged by label, not by position)
+    same_labels = None
+    if rng.integers(4) == 0:
+        same_labels = {k: ["_x_%s_%s" % (k, c) for c in "abc"[: int(rng.integers(2, 4))]] for k in list(atomsgen.KNAMES) + ["atom"] if rng.integers(3) > 0}
+    a = atomsgen.gen_atoms(rng, ns, tag="S", id_base=1000.0, cell=cell, max_terms=3, extras=same_labels)
     if mode == "shared":
         # other shares self's type ids: same tables, ids within them; used with offsets (0,0,0,0,0)
         kw = dict(atom_types=[int(x) for x in rng.integers(0, len(a.atom_type_elements), no)], positions=rng.uniform(-2, 2, (no, 3)),
@@ -120,7 +125,16 @@ def _build_pair(rng, ns, no, mode, cell):
         o = Atoms(**kw)
     else:
         kinds, tables = _compat_opts(rng, a)
-        o = atomsgen.gen_atoms(rng, no, tag="O", id_base=2000.0, cell=None, kinds=kinds, tables=tables, pair=len(a.pair_coeffs) > 0)
+        o_extras = None
+        if same_labels is not None:
+            o_extras = {}
+            for k, labs in same_labels.items():
+                perm = list(labs)
+                while perm == list(labs):
+                    perm = [labs[i] for i in rng.permutation(len(labs))]
+                o_extras[k] = perm
+            SAME_LABELS_OTHER_ORDER[0] += 1
+        o = atomsgen.gen_atoms(rng, no, tag="O", id_base=2000.0, cell=None, kinds=kinds, tables=tables, pair=len(a.pair_coeffs) > 0, extras=o_extras)
     if (ns + no) % 3 == 0:
         _numeric_extras(o)
         if ns % 2:
@@ -129,6 +143,7 @@ def _build_pair(rng, ns, no, mode, cell):
 
 
 NUMERIC_EXTRAS = [0]
+SAME_LABELS_OTHER_ORDER = [0]
 
 
 def _numeric_extras(x):
@@ -343,10 +358,12 @@ def run_case(case, ctx):
         st.seen("large_size_class", n // 100000)
         ctx.nontrivial([case["s"], case["mode"], "large"])
         return
-    n0 = NUMERIC_EXTRAS[0]
+    n0, m0 = NUMERIC_EXTRAS[0], SAME_LABELS_OTHER_ORDER[0]
     a, o = _build_pair(rng, case["ns"], case["no"], case["mode"], ["ortho", None][case["s"] % 2])
     if NUMERIC_EXTRAS[0] > n0:
         st.count("extensions_with_numbers_and_flags_in_extra_columns")
+    if SAME_LABELS_OTHER_ORDER[0] > m0:
+        st.count("extensions_whose_fragment_lists_the_same_extra_labels_in_another_order")
     if case["kind"] == "exhaustive":
         maps = atomsgen.partial_injections(case["no"], case["ns"])
         for idx_map in maps:
